@@ -1358,8 +1358,9 @@ class FnTr:
         e = s.value
         if isinstance(e, ast.Constant) and isinstance(e.value, str):
             return None                                            # docstring
-        if isinstance(e, ast.Call) and ast.unparse(e.func) == "warnings.warn":
-            # a warning is recorded as the number of its call site (in source order) in the declared variable `warnings_`; the text is dropped
+        if isinstance(e, ast.Call) and ast.unparse(e.func) == "warnings.warn" and self.vars.get("warnings_") != ("List", "Exc"):
+            # a warning is recorded as the number of its call site (in source order) in the declared variable `warnings_ : List Int`; the text
+            # is dropped (a function with tracked exceptions keeps the message instead: `warnings_ : List Exc`, below)
             if self.vars.get("warnings_") != ("List", "Int"):
                 raise Untranslatable(f"{self.spec.lean}: `warnings.warn` needs a variable `warnings_ : List Int`")
             k = self.warn_sites.index((e.lineno, e.col_offset))
